@@ -449,7 +449,7 @@ Definition dist (m e d k : Z) : Z :=
   Z.abs (lhs - rhs).
 
 (* shortest digits (as an integer d with n digits) and exponent k with
-   d*10^k in the interval, closest to x among the n-digit candidates *)
+   d*10^k in the interval, closest to x among the n-digit candidates (tie: upward) *)
 Fixpoint shortest_search (fuel : nat) (m e E : Z) (boundary : bool) (n : Z) : Z * Z :=
   let k := E - n + 1 in
   let lo := (* floor(x / 10^k) *)
@@ -461,8 +461,10 @@ Fixpoint shortest_search (fuel : nat) (m e E : Z) (boundary : bool) (n : Z) : Z 
   | O => (lo, k)
   | S f =>
       if lo_ok && hi_ok then
+        (* both neighbours read back: the closer one; an exact tie goes UP, as
+           flt2dec::strategy::dragon::format_shortest does ("round up if mant*2 >= scale") *)
         (match dist m e lo k ?= dist m e hi k with
-         | Lt => (lo, k) | Gt => (hi, k) | Eq => if Z.even lo then (lo, k) else (hi, k) end)
+         | Lt => (lo, k) | _ => (hi, k) end)
       else if lo_ok then (lo, k)
       else if hi_ok then (hi, k)
       else shortest_search f m e E boundary (n + 1)
